@@ -363,6 +363,9 @@ def compare_case(ctx, label, g, mline, iline):
     if mline.startswith('BAD-LINE') or iline.startswith('BAD-LINE'):
         return [('broken', '-', 'line not parsed: model %s / impl %s' % (mline[:100], iline[:100]))]
     wf = 'WF=1' in head; reg = 'REG=1' in head
+    if iline.startswith('CRASH') and label == 'own-output-rejected' and 'downcast of address' in iline:
+        # sanitizer flavour: a Multi* holding an element of another class is a type confusion (static downcast in getGeometryN)
+        return [('known:own-output-rejected', '-', iline[:200])]
     if iline.startswith('CRASH') or iline == 'TIMEOUT' or iline == 'MISSING':
         return [('violation', '-', 'implementation %s' % iline[:300])]
     if iline.startswith('CONSTRUCT-FAIL'):
@@ -468,7 +471,8 @@ def run(ctx):
             l = l.strip()
             if l and not l.startswith('#'):
                 lab, t = l.split('\t')
-                cases.append((lab, eval(t)))
+                import ast
+                cases.append((lab, ast.literal_eval(t)))
     while len(cases) < n_cases:
         lab, g = gen.case()
         if f14_danger(g):
